@@ -2,7 +2,7 @@
 extracted model, compare test by test, and run an *abstract* oracle (a Python list / set / bit string -
 independent of the Coq model) over the implementation's output to turn a disagreement into a concrete
 failing input."""
-import collections, hashlib
+import os, collections, hashlib
 from . import common, units
 
 # ---- abstract oracles over the implementation's output lines of one test ----
@@ -165,6 +165,7 @@ def run(run, kinds_lines, variants=("include", "development"), extra_flags=(), w
             run.divergences.append(dict(what="the unit harness does not compile against the working tree (%s header)" % variant,
                                         reason=log[-3000:], cfg=cfgname, variant=variant))
             continue
+        if os.environ.get("VERIF_WARM"): continue      # set-up: only build
         rc, out, err, mrc, mout, merr = units.run_units(b, lines, wrapper=wrapper)
         if mrc != 0:
             run.divergences.append(dict(what="unit model runner failed", reason=merr[-500:], cfg=cfgname)); continue
